@@ -45,6 +45,7 @@ ASSUMPTIONS = [
     'data values: one generic pattern per VERIF_SEED plus the zero function; structure exhaustive',
 ]
 
+CASE_TIMEOUT = 60        # every run has an explicit horizon; a run that does not stop within it is a violation (clause timeout)
 DOC_STOPS = ('func', 'm', 'e', 'nswp', 'conv', 'e_vld', 'cb')
 BIG = 10 ** 9
 
